@@ -21,6 +21,8 @@ pub struct FdCfg {
     /// the two "steady" inter-arrival times a <= b <= max_interval (0 = max/4 and max/2)
     pub a_over: u64,
     pub b_over: u64,
+    /// dead-node grace period in ms (0 = practically infinite: the member is never removed)
+    pub grace_ms: u64,
 }
 
 impl FdCfg {
@@ -43,10 +45,10 @@ impl FdCfg {
         }
     }
     pub fn json(&self) -> Value {
-        json!({"phi_threshold": self.phi, "sampling_window_size": self.window, "initial_interval_ms": self.initial_ms, "max_interval_ms": self.max_ms, "a_ms": self.a_ms(), "b_ms": self.b_ms()})
+        json!({"phi_threshold": self.phi, "sampling_window_size": self.window, "initial_interval_ms": self.initial_ms, "max_interval_ms": self.max_ms, "a_ms": self.a_ms(), "b_ms": self.b_ms(), "dead_node_grace_ms": self.grace_ms})
     }
     pub fn from_json(v: &Value) -> Option<FdCfg> {
-        Some(FdCfg { phi: v["phi_threshold"].as_f64()?, window: v["sampling_window_size"].as_u64()? as usize, initial_ms: v["initial_interval_ms"].as_u64()?, max_ms: v["max_interval_ms"].as_u64()?, a_over: v["a_ms"].as_u64().unwrap_or(0), b_over: v["b_ms"].as_u64().unwrap_or(0) })
+        Some(FdCfg { phi: v["phi_threshold"].as_f64()?, window: v["sampling_window_size"].as_u64()? as usize, initial_ms: v["initial_interval_ms"].as_u64()?, max_ms: v["max_interval_ms"].as_u64()?, a_over: v["a_ms"].as_u64().unwrap_or(0), b_over: v["b_ms"].as_u64().unwrap_or(0), grace_ms: v["dead_node_grace_ms"].as_u64().unwrap_or(0) })
     }
 }
 
@@ -62,13 +64,17 @@ pub enum Ev {
     AdvMaxPlus,
     AdvBoundPlus,
     Eval,
+    /// a heartbeat two below the highest value ever delivered (stale, from a lagging relay)
+    Lower2,
+    /// advance by the dead-node grace period + 1 ms (only used in root prefixes)
+    AdvGracePlus,
 }
 
 pub const ALPHABET: [Ev; 10] = [Ev::Fresh, Ev::FreshRelay, Ev::Equal, Ev::Lower, Ev::AdvA, Ev::AdvB, Ev::AdvMax, Ev::AdvMaxPlus, Ev::AdvBoundPlus, Ev::Eval];
 
 impl Ev {
     pub fn is_stale_hb(self) -> bool {
-        matches!(self, Ev::Equal | Ev::Lower)
+        matches!(self, Ev::Equal | Ev::Lower | Ev::Lower2)
     }
     pub fn name(self) -> &'static str {
         match self {
@@ -82,10 +88,12 @@ impl Ev {
             Ev::AdvMaxPlus => "advance-max-interval+1ms",
             Ev::AdvBoundPlus => "advance-bound+1ms",
             Ev::Eval => "eval",
+            Ev::Lower2 => "hb-two-below",
+            Ev::AdvGracePlus => "advance-dead-node-grace+1ms",
         }
     }
     pub fn from_name(s: &str) -> Option<Ev> {
-        ALPHABET.iter().copied().find(|e| e.name() == s)
+        ALPHABET.iter().copied().chain([Ev::Lower2, Ev::AdvGracePlus]).find(|e| e.name() == s)
     }
     pub fn advance_ms(self, c: &FdCfg) -> Option<u64> {
         Some(match self {
@@ -94,6 +102,7 @@ impl Ev {
             Ev::AdvMax => c.max_ms,
             Ev::AdvMaxPlus => c.max_ms + 1,
             Ev::AdvBoundPlus => c.bound_ms() + 1,
+            Ev::AdvGracePlus => c.grace_ms + 1,
             _ => return None,
         })
     }
@@ -126,7 +135,7 @@ pub struct Observer {
 
 impl Observer {
     pub fn new(cfg: FdCfg) -> Observer {
-        let fd = FailureDetectorConfig::new(cfg.phi, cfg.window, Duration::from_millis(cfg.max_ms), Duration::from_millis(cfg.initial_ms), Duration::from_secs(100_000_000));
+        let fd = FailureDetectorConfig::new(cfg.phi, cfg.window, Duration::from_millis(cfg.max_ms), Duration::from_millis(cfg.initial_ms), if cfg.grace_ms == 0 { Duration::from_secs(100_000_000) } else { Duration::from_millis(cfg.grace_ms) });
         let node = Node::new(&Id::v4("obs", 1, 10_001), &NodeOpts { fd, ..Default::default() });
         Observer { node, cfg, highest: 0, fresh_count: 0, last_fresh_at: None, now: 0, relay_hb: 0, last_observation_at: None, usable_intervals: 0 }
     }
@@ -171,6 +180,12 @@ impl Observer {
                     self.deliver(hb, true);
                 }
             }
+            Ev::Lower2 => {
+                if self.highest > 2 {
+                    let hb = self.highest - 2;
+                    self.deliver(hb, true);
+                }
+            }
             Ev::Eval => {
                 self.node.cc.verif_update_nodes_liveness();
                 let id = real::to_real_id(&x_id());
@@ -195,7 +210,9 @@ impl Observer {
                     self.usable_intervals = 0;
                 }
                 if let Some(t) = self.last_fresh_at {
-                    if self.now - t > self.cfg.bound_ms() && (live || !dead) {
+                    // (a member that was removed after the dead-node grace period is in neither set: that
+                    // is the strongest form of "not live")
+                    if self.now - t > self.cfg.bound_ms() && (live || (known && !dead)) {
                         return (
                             Some(live),
                             Some(("C10", format!("no fresh heartbeat for {} ms > bound {} ms but the member is {}", self.now - t, self.cfg.bound_ms(), if live { "live" } else { "not dead" }), "silent-member-not-dead".into())),
@@ -251,6 +268,8 @@ pub fn run_seq(cfg: &FdCfg, seq: &[Ev]) -> Result<Vec<bool>, (&'static str, Stri
 /// Non-initial roots (deterministic prefixes) from which the exhaustive enumeration is repeated.
 pub fn roots() -> Vec<(&'static str, Vec<Ev>)> {
     vec![
+        // (only used with a finite dead-node grace period) the member was live, died, was removed
+        ("removed-after-grace", vec![Ev::Fresh, Ev::Fresh, Ev::AdvA, Ev::Fresh, Ev::Eval, Ev::AdvBoundPlus, Ev::Eval, Ev::AdvGracePlus, Ev::Eval]),
         ("initial", vec![]),
         ("live", vec![Ev::Fresh, Ev::Fresh, Ev::AdvA, Ev::Fresh, Ev::Eval]),
         ("died-after-being-live", vec![Ev::Fresh, Ev::Fresh, Ev::AdvA, Ev::Fresh, Ev::Eval, Ev::AdvBoundPlus, Ev::Eval]),
@@ -260,8 +279,14 @@ pub fn roots() -> Vec<(&'static str, Vec<Ev>)> {
 
 pub fn exhaustive(cfg: &FdCfg, root: &[Ev], depth: usize, want: &str, deadline: Instant) -> (Tally, Vec<Viol>, bool) {
     let capped = std::sync::atomic::AtomicBool::new(false);
+    // from the non-initial roots the alphabet also has the heartbeat two below the highest
+    let mut alphabet: Vec<Ev> = ALPHABET.to_vec();
+    if !root.is_empty() {
+        alphabet.push(Ev::Lower2);
+    }
+    let alphabet = &alphabet;
     // parallel over the first two events after the root
-    let prefixes: Vec<Vec<Ev>> = ALPHABET.iter().flat_map(|a| ALPHABET.iter().map(move |b| { let mut v = root.to_vec(); v.push(*a); v.push(*b); v })).collect();
+    let prefixes: Vec<Vec<Ev>> = alphabet.iter().flat_map(|a| alphabet.iter().map(move |b| { let mut v = root.to_vec(); v.push(*a); v.push(*b); v })).collect();
     let depth = depth + root.len();
     let results: Vec<(Tally, Vec<Viol>)> = prefixes
         .par_iter()
@@ -275,7 +300,7 @@ pub fn exhaustive(cfg: &FdCfg, root: &[Ev], depth: usize, want: &str, deadline: 
                     break;
                 }
                 if seq.len() < depth {
-                    for e in ALPHABET.iter().rev() {
+                    for e in alphabet.iter().rev() {
                         let mut s = seq.clone();
                         s.push(*e);
                         stack.push(s);
@@ -528,7 +553,7 @@ pub fn grid(tier: Tier) -> Vec<FdCfg> {
     for phi in &phis {
         for w in &windows {
             for (i, m) in &ivs {
-                out.push(FdCfg { phi: *phi, window: *w, initial_ms: *i, max_ms: *m, a_over: 0, b_over: 0 });
+                out.push(FdCfg { phi: *phi, window: *w, initial_ms: *i, max_ms: *m, a_over: 0, b_over: 0, grace_ms: 0 });
             }
         }
     }
@@ -542,14 +567,16 @@ pub fn run(property: &'static str, tier: Tier, started: Instant) -> Vec<Part> {
     let mut parts = vec![];
 
     let mut e = Part::new(&format!("fd/exhaustive(depth<={depth})"));
-    e.rule = format!("one real observer node, one member whose heartbeats arrive in crafted SYN digests; every event sequence of length <= {depth} ending in an evaluation over {{fresh heartbeat, fresh via a relay's digest, equal, lower, advance a / b / max_interval / max_interval+1ms / bound+1ms, evaluate}} for every configuration of the grid (phi x window x (initial, max interval)), from the initial state and (two events shallower) from three non-initial roots: a live member, a member that died after being live, a member that received heartbeats while dead and was found dead again; oracle at every evaluation: never live without two observations at most max_interval apart since it was last found dead, live and dead disjoint and exhaustive, never live with fewer than two strictly increasing values, dead whenever the last strictly higher value is older than phi x max(max_interval, initial_interval); for C11 additionally every history containing equal/lower heartbeats is re-run without them and must give the same verdicts; non-trivial = histories with at least one live verdict");
+    e.rule = format!("one real observer node, one member whose heartbeats arrive in crafted SYN digests; every event sequence of length <= {depth} ending in an evaluation over {{fresh heartbeat, fresh via a relay's digest, equal, lower, advance a / b / max_interval / max_interval+1ms / bound+1ms, evaluate}} for every configuration of the grid (phi x window x (initial, max interval)), from the initial state and (two events shallower) from three non-initial roots: a live member, a member that died after being live, a member that received heartbeats while dead and was found dead again, a member that was removed after the dead-node grace period (finite grace; alphabet extended with the heartbeat two below the highest); oracle at every evaluation: never live without two observations at most max_interval apart since it was last found dead, live and dead disjoint and exhaustive, never live with fewer than two strictly increasing values, dead whenever the last strictly higher value is older than phi x max(max_interval, initial_interval); for C11 additionally every history containing equal/lower heartbeats is re-run without them and must give the same verdicts; non-trivial = histories with at least one live verdict");
     e.bounds = json!({"configs": cfgs.iter().map(|c| c.json()).collect::<Vec<_>>(), "depth": depth, "alphabet": ALPHABET.iter().map(|x| x.name()).collect::<Vec<_>>()});
     let mut viols = vec![];
     let ncfg = cfgs.len() as u64;
     for (i, cfg) in cfgs.iter().enumerate() {
-        for (ri, (_, root)) in roots().iter().enumerate() {
-            // the full depth from the initial state, depth - 2 from the non-initial roots
-            let d = if ri == 0 { depth } else { depth - 2 };
+        for (name, root) in roots().iter() {
+            // the full depth from the initial state, depth - 2 from the non-initial roots; the
+            // "removed" root runs with a finite dead-node grace period (3 x bound)
+            let d = if root.is_empty() { depth } else { depth - 2 };
+            let cfg = &if *name == "removed-after-grace" { FdCfg { grace_ms: 3 * cfg.bound_ms(), ..*cfg } } else { *cfg };
             let (t, v, capped) = exhaustive(cfg, root, d, property, secs(tier.pick(50, 3000) * (i as u64 + 1) / ncfg));
             e.tally.merge(&t);
             viols.extend(v);
